@@ -2,7 +2,8 @@
   Oracle for C16: reads the machines dumped by the harness (canonical text of harness/basmdump,
   one machine between an `M` line and its `E` line) and evaluates the independent validator
   `BMV.WfBM` on each:
-      WF <0|1> reasons=<r1,r2,..|-> unmodelled=<op,..|-> words=<#ROM words> cps=<#processors>
+      WF <0|1> cf=<0|1> reasons=<r1,r2,..|-> unmodelled=<op,..|-> words=<#ROM words> cps=<#processors>
+  (cf = `CfClosed`: every jump target is inside the program; reported, not part of the verdict)
   `CASE`, `F`, `R` lines are echoed.  When a machine uses opcodes outside the shared layout table
   its verdict is printed but the reason list says so (`opcode-unmodelled-or-wrong-mode`) and the
   opcodes are listed: the driver reports such instances as *unmodelled*, not as ill-formed.
@@ -24,7 +25,7 @@ def verdict (bm0 : BM) : String :=
   let rs := WfBM.explain bm
   let um := unmodelled bm
   let words := (bm.cps.map fun cp => cp.prog.length).sum
-  s!"WF {if ok then 1 else 0} reasons={if rs.isEmpty then "-" else ",".intercalate rs} unmodelled={if um.isEmpty then "-" else ",".intercalate um} words={words} cps={bm.cps.length}"
+  s!"WF {if ok then 1 else 0} cf={if CfClosed bm then 1 else 0} reasons={if rs.isEmpty then "-" else ",".intercalate rs} unmodelled={if um.isEmpty then "-" else ",".intercalate um} words={words} cps={bm.cps.length}"
 
 def step (st : St) (line : String) : St × List String :=
   match fields line with
